@@ -456,9 +456,19 @@ def rule_r5(repo, run):
               "underscore_name must be un_camel of the declared function name", am.loc(fn))
 
 
+def rule_x(repo, run):
+    R = run.rule("C08.R6", "a derived type lists only its own generics (C05.R11) and a Lua method table has one entry "
+                           "per name (grouping of overloads, C18.R2)")
+    from checks import c05, c18
+    from sa.report import import_rules
+    import_rules(run, R, c05, repo, {"C05.R11"})
+    import_rules(run, R, c18, repo, {"C18.R2"}, only=lambda c: "wrap_functions" in c)
+
+
 def run(repo, run, tier):
     rule_r1(repo, run)
     rule_r2(repo, run)
     rule_r3(repo, run)
     rule_r4(repo, run)
     rule_r5(repo, run)
+    rule_x(repo, run)
